@@ -8,6 +8,7 @@
 package main
 
 import (
+	"encoding/json"
 	"flag"
 	"fmt"
 	"io"
@@ -436,6 +437,62 @@ func degeneracy(p *policy) []string {
 		out = append(out, "solo")
 	}
 	return out
+}
+
+// fromRec rebuilds a policy from its logged JSON record (replay of a single case).
+func fromRec(rec map[string]any) *policy {
+	nums := func(v any) []uint64 {
+		out := []uint64{}
+		for _, x := range v.([]any) {
+			out = append(out, uint64(x.(float64)))
+		}
+		return out
+	}
+	fam := rec["fam"].(string)
+	holders := nums(rec["holders"])
+	p := &policy{ap: apol{fam: fam, n: len(holders)}, ids: holders, idkind: "replay", holders: sorted(holders), rec: rec}
+	p.subs = subsetsOf(p.holders)
+	switch fam {
+	case "threshold":
+		p.ap.t = int(rec["t"].(float64))
+		p.ac, p.acErr = threshold.NewThresholdAccessStructure(uint(p.ap.t), idSet(p.holders))
+	case "unanimity":
+		p.ac, p.acErr = unanimity.NewUnanimityAccessStructure(idSet(p.holders))
+	case "cnf":
+		sets := []ds.Set[ID]{}
+		for _, m := range rec["mus"].([]any) {
+			sets = append(sets, idSet(nums(m)))
+		}
+		p.ac, p.acErr = cnf.NewCNFAccessStructure(sets...)
+	case "hier":
+		ls := []*hierarchical.ThresholdLevel{}
+		for _, l := range rec["levels"].([]any) {
+			lm := l.(map[string]any)
+			t := int(lm["t"].(float64))
+			p.ap.levels = append(p.ap.levels, level{t: t})
+			ls = append(ls, hierarchical.WithLevel(t, toIDs(nums(lm["ps"]))...))
+		}
+		p.ac, p.acErr = hierarchical.NewHierarchicalConjunctiveThresholdAccessStructure(ls...)
+	case "tree":
+		nodes := rec["nodes"].([]any)
+		var build func(i int) *boolexpr.Node
+		build = func(i int) *boolexpr.Node {
+			nd := nodes[i-1].(map[string]any)
+			if nd["kind"].(string) == "leaf" {
+				return boolexpr.ID(ID(uint64(nd["id"].(float64))))
+			}
+			ch := []*boolexpr.Node{}
+			for _, c := range nd["ch"].([]any) {
+				ch = append(ch, build(int(c.(float64))))
+			}
+			return boolexpr.Threshold(int(nd["t"].(float64)), ch...)
+		}
+		p.ac, p.acErr = boolexpr.NewThresholdGateAccessStructure(build(int(rec["root"].(float64))))
+	}
+	if p.acErr == nil {
+		p.deg = degeneracy(p)
+	}
+	return p
 }
 
 // ---- enumeration of abstract policies
@@ -1951,6 +2008,7 @@ func main() {
 		mode  = flag.String("mode", "c02", "c02 | c05 | count")
 		fams  = flag.String("fams", "threshold,unanimity,cnf,hier,tree", "policy families")
 		split = flag.String("part", "0/1", "i/n: take every n-th policy starting at i")
+		polf  = flag.String("pol", "", "replay: file with the JSON record of one policy (mode c02 / c05)")
 	)
 	flag.IntVar(&flagMaxN, "maxn", 4, "max holders (threshold, unanimity, hier, tree)")
 	flag.IntVar(&flagCnfN, "cnfn", 4, "max holders of CNF policies")
@@ -2025,6 +2083,17 @@ func main() {
 			}
 			pols = append(pols, realize(ap, asg[k], k))
 		}
+	}
+	if *polf != "" {
+		data, err := os.ReadFile(*polf)
+		if err != nil {
+			panic(err)
+		}
+		var rec map[string]any
+		if err := json.Unmarshal(data, &rec); err != nil {
+			panic(err)
+		}
+		pols = []*policy{fromRec(rec)}
 	}
 	switch *mode {
 	case "c02":
